@@ -533,6 +533,10 @@ def stepConstruct (op : String) (kv : KV) : String :=
   | "k.region" =>
     match Construct.guestRegionNew { addr := 0, size := kv.nat "size", prot := 0, flags := 0, fileStart := none, owned := true } (kv.nat "base") with
     | .ok _ => "ok" | .error e => fmtBErr e
+  | "k.overlap" =>
+    let rng (a b : String) : Option (Nat × Nat) := match optNat kv a with | some s => some (s, kv.nat b) | none => none
+    match Construct.fdsOverlap (kv.nat "same" = 1) (rng "s1" "l1") (rng "s2" "l2") with
+    | .ok b => s!"ok {b}" | .err _ => "err" | .panic => "panic"
   | "k.xenflags" => s!"{Construct.xenFlagsAccepted (BitVec.ofNat 32 (kv.nat "w"))}"
   | "k.xen" =>
     let r : Construct.XenReq := { size := kv.nat "size", file := file, flags := optNat kv "flags", xenFlags := BitVec.ofNat 32 (kv.nat "w") }
